@@ -43,23 +43,30 @@ Variables X Y : IPS.
 Variable A : X -> Y.
 Variable At : Y -> X.
 
-Theorem gen_cgn_step_is_model (s : @cgnst R X Y) :
-  gen_cgn_step X Y vplus smul inner vplus smul inner A At s = cgn_step X Y vplus smul inner vplus smul inner A At s.
+Theorem gen_cgn_step_is_model (epsm : R) (s : @cgnst R X Y) :
+  gen_cgn_step X Y vplus smul inner vplus smul inner A At epsm s
+  = cgn_step X Y vplus smul inner vplus smul inner A At epsm s.
 Proof.
-  destruct s as [x d p s ss stp]. unfold gen_cgn_step, cgn_step; cbn [n_x n_d n_p n_s n_ss n_stop]. numR.
+  destruct s as [x d p s ss stp dd]. unfold gen_cgn_step, cgn_step; cbn [n_x n_d n_p n_s n_ss n_stop n_dd]. numR.
   rewrite !smul_1. reflexivity.
 Qed.
 Theorem gen_cgn_start_is_model (eps2 : R) (b : Y) (x : X) :
-  gen_cgn_start X Y inner vplus smul A At eps2 b x = cgn_init X Y inner vplus smul A At eps2 b x.
+  gen_cgn_start X Y inner vplus smul inner A At eps2 b x = cgn_init X Y inner vplus smul inner A At eps2 b x.
 Proof. unfold gen_cgn_start, cgn_init. numR. rewrite !smul_1. reflexivity. Qed.
-Theorem gen_cgn_run_is_model (eps2 : R) (b : Y) (x : X) (n : nat) :
-  otrace (gen_cgn_step X Y vplus smul inner vplus smul inner A At) n (gen_cgn_start X Y inner vplus smul A At eps2 b x)
-  = cgn_run X Y vplus smul inner vplus smul inner A At eps2 b x n.
+Theorem gen_cgn_run_is_model (eps2 epsm : R) (b : Y) (x : X) (n : nat) :
+  otrace (gen_cgn_step X Y vplus smul inner vplus smul inner A At epsm) n
+         (gen_cgn_start X Y inner vplus smul inner A At eps2 b x)
+  = cgn_run X Y vplus smul inner vplus smul inner A At eps2 epsm b x n.
 Proof.
   rewrite gen_cgn_start_is_model. unfold cgn_run.
-  generalize (cgn_init X Y inner vplus smul A At eps2 b x). induction n as [|n IH]; intros s; cbn [otrace]; [reflexivity|].
-  rewrite gen_cgn_step_is_model. destruct (cgn_step X Y vplus smul inner vplus smul inner A At s); [rewrite IH|]; reflexivity.
+  generalize (cgn_init X Y inner vplus smul inner A At eps2 b x). induction n as [|n IH]; intros s; cbn [otrace]; [reflexivity|].
+  rewrite gen_cgn_step_is_model. destruct (cgn_step X Y vplus smul inner vplus smul inner A At epsm s); [rewrite IH|]; reflexivity.
 Qed.
+(* the exit through the guard of fix b290190 (`x.lincomb(1, x, -a, p); d.lincomb(1, d, a, q); return`)
+   leaves exactly the x the iteration started with *)
+Theorem gen_cgn_guard_exit_restores_x (epsm : R) (s : @cgnst R X Y) :
+  gen_cgn_exit1_x X Y vplus smul vplus smul inner A At epsm s = n_x X Y s.
+Proof. unfold gen_cgn_exit1_x. numR. apply inner_ext; intro w; inner_expand; ring. Qed.
 End GenCGN.
 
 Section GenPM.
